@@ -81,8 +81,15 @@ func calculateCurrentAge(
 	correctedAgeValue := time.Duration(ageVal)*time.Second + responseDelay
 	correctedInitialAge := max(apparentAge, correctedAgeValue)
 	residentTime := max(clock.Since(responseTime), 0)
+	// Saturate (RFC 9111 §1.2.2): a Date centuries in the past makes the apparent
+	// age the largest Duration, and adding to it would wrap around to "fresh".
+	// (Half the range is left so that the time elapsed since can still be added.)
+	value := correctedInitialAge + residentTime
+	if value < 0 || value > maxDuration/2 {
+		value = maxDuration / 2
+	}
 	return &Age{
-		Value:     correctedInitialAge + residentTime,
+		Value:     value,
 		Timestamp: clock.Now(),
 	}
 }
